@@ -100,7 +100,7 @@ func RunTimedWorld(r sim.Src, mons []*sim.Mon, keepLog bool, sh TimedShape) *sim
 	// committee rotation (fault-free worlds only): n+1 honest identities, one of them rests at every height - Y at the
 	// first height, X for the next one or two, then Y again - so X takes part, sits out as a mere observer while the
 	// ledger advances, and returns with another index.  Everybody is honest and synchronous all along.
-	rotate := sh.Kind == "c08" && r.Intn("rotate", 5) == 0
+	rotate := (sh.Kind == "c08" || sh.Kind == "c16") && r.Intn("rotate", 5) == 0
 	if rotate {
 		ids = n + 1
 	}
@@ -209,6 +209,16 @@ func RunTimedWorld(r sim.Src, mons []*sim.Mon, keepLog bool, sh TimedShape) *sim
 		o.TxAvoidGap, o.TxAvoidWin = 2*tpb, 4*o.MaxLat
 		if r.Intn("landonsub", 2) == 0 {
 			o.LandOnSubscribePct = 25
+		}
+		if rotate {
+			// committee rotation on the idle chain (seeded change C16m: a returning identity's first timer): as in C08's
+			// rotation worlds the resting identity has to follow the chain from consensus traffic alone, so the phases of
+			// a round arrive in their natural order and every pool gets a new transaction at the same instant
+			o.TxJitter, o.LandOnSubscribePct = false, 0
+			phaseSkew = map[int][4]int{}
+			for i := 0; i < ids; i++ {
+				phaseSkew[i] = [4]int{0, 1, 2, 3}
+			}
 		}
 		// transaction arrivals: never / before the minimum / during the extended wait
 		all := make([]int, ids)
